@@ -62,13 +62,13 @@ func (s origSet) addAll(t origSet) {
 
 // writeEffect: one place where memory of a given (non-fresh) origin is written.
 type writeEffect struct {
-	o    origin
-	what string // "store to field X", "map update", ...
-	pos  string
-	fn   *ssa.Function   // function containing the write instruction
-	via  []*ssa.Function // call chain from the summarised function down to fn
-	kind string          // "store" | "mapupdate" | "append-in-place" | "call:<ext>"
-	keyParam1 int        // a map update made by the summarised function itself whose key is its parameter number keyParam1-1 (0: none)
+	o         origin
+	what      string // "store to field X", "map update", ...
+	pos       string
+	fn        *ssa.Function   // function containing the write instruction
+	via       []*ssa.Function // call chain from the summarised function down to fn
+	kind      string          // "store" | "mapupdate" | "append-in-place" | "call:<ext>"
+	keyParam1 int             // a map update made by the summarised function itself whose key is its parameter number keyParam1-1 (0: none)
 }
 
 type fnSummary struct {
